@@ -312,6 +312,14 @@ fn check_ast(ast: &Ast, st: &mut Stats) {
                 }
                 // and a fresh name that does not occur in the expression
                 cands.push((pool[i].clone(), "fresh_name".to_string()));
+                // and a name that is in use in the *other* namespace (variables and functions are
+                // separate: a variable may be called like a function of the context and vice versa)
+                let other = if vars { &fn_names } else { &var_names };
+                for o in other.iter() {
+                    if !pool.contains(o) {
+                        cands.push((pool[i].clone(), o.clone()));
+                    }
+                }
             }
             // for expressions with many names, a spread of pairs instead of all of them
             if cands.len() > 60 {
@@ -502,7 +510,7 @@ pub fn run(cfg: &Cfg) -> Report {
     Report {
         property: ID,
         level: "exploration",
-        rule: format!("every AST with <= {k} operator nodes over the full operator alphabet (identifiers in every leaf, assignment-target and function position, named in source order) plus {nseq} sequence-shaped ASTs (`,`/`;` skeletons with <= {seq_n} separators over 13 element shapes incl. absent elements, `()`, nested sequences); per AST: 5 immutable + 5 mutable iterators against the occurrence list of the AST, every consumption style (for_each/fold, last, count, nth after 0..3 calls of next()) against next(), unknown-identifier errors against the lists, and every swap of two variable names / two function names / a name with a fresh name applied through the mutable iterators and to the context. Plus scaling families (sums, products, tuples, call arguments, call chains, assignment chains, prefix chains, statement sequences with n identifiers for every n in 1..20 and up to 129 / 1..40 and up to 400). Non-trivial = at least two identifier occurrences; distinct by normalised tree"),
+        rule: format!("every AST with <= {k} operator nodes over the full operator alphabet (identifiers in every leaf, assignment-target and function position, named in source order) plus {nseq} sequence-shaped ASTs (`,`/`;` skeletons with <= {seq_n} separators over 13 element shapes incl. absent elements, `()`, nested sequences); per AST: 5 immutable + 5 mutable iterators against the occurrence list of the AST, every consumption style (for_each/fold, last, count, nth after 0..3 calls of next()) against next(), unknown-identifier errors against the lists, and every swap of two variable names / two function names / a name with a fresh name / a name with a name in use in the other namespace applied through the mutable iterators and to the context. Plus scaling families (sums, products, tuples, call arguments, call chains, assignment chains, prefix chains, statement sequences with n identifiers for every n in 1..20 and up to 129 / 1..40 and up to 400). Non-trivial = at least two identifier occurrences; distinct by normalised tree"),
         nontrivial_set: "nontrivial",
         exhaustive: true,
         bound_completed: format!("AST size {k}; sequences with {seq_n} separators"),
